@@ -245,6 +245,77 @@ def opentype_blob_inputs():
     return _BLOB_INPUTS
 
 
+CHILD = r"""
+import io, sys
+sys.path.insert(0, sys.argv[1])
+from pyasn1.codec.ber import decoder as ber
+from pyasn1.codec.cer import decoder as cer
+from pyasn1.codec.der import decoder as der
+from pyasn1 import error
+data = bytes.fromhex(sys.argv[2])
+out = []
+for name, mod in (('ber', ber), ('cer', cer), ('der', der)):
+    for mode in ('oneshot', 'stream'):
+        try:
+            if mode == 'oneshot':
+                mod.decode(data)
+                out.append('ok')
+            else:
+                n = 0
+                for x in mod.StreamingDecoder(io.BytesIO(data)):
+                    n += 1
+                    if isinstance(x, error.SubstrateUnderrunError) or n > 50:
+                        break
+                out.append('ok')
+        except error.PyAsn1Error:
+            out.append('lib')
+        except BaseException as e:
+            out.append('leak:' + type(e).__name__)
+print(' '.join(out))
+"""
+
+
+def abort_prone_inputs():
+    """Deep nests (by header, whatever the lengths say) with something at the bottom that makes the decoder build an
+    error while it stands there: a cut long-form length, a cut tag, an overrun, an unknown tag, nothing.  On CPython
+    3.12 the nested generators of the decoder use the C stack level by level, and an exception raised at the bottom of
+    some 250 levels, while the one-shot wrapper abandons the suspended generators, ends in `Fatal Python error: Cannot
+    recover from stack overflow` - no exception at all, so these inputs are decoded in a child interpreter."""
+    out = []
+    for hdr in (b'\x30\x30', b'\x30\x80', b'\xa0\x7f', b'\x31\x30', b'\x24\x30'):
+        for n in (120, 258, 300, 420):
+            for tail in (b'\x04\x84\x00\x00\x00', b'\x04\x84\x00\x00', b'\x1f', b'\x04\x82', b'', b'\x04\x01\x00', b'\xdf\x87'):
+                out.append(hdr * n + tail)
+                out.append(b'\xac\x80\x04\x01\xb1' + hdr * n + tail)
+    return out
+
+
+def check_in_child(res, data):
+    import subprocess
+    case = ('c08-child', data.hex())
+    feats = {'origin:abort-prone', 'child-interpreter'}
+    res.case(U.case_hash(data, 'child'), True)
+    try:
+        p = subprocess.run([sys.executable, '-c', CHILD, H.REPO, data.hex()], capture_output=True, text=True, timeout=120)
+    except subprocess.TimeoutExpired:
+        res.see('child:timeout')
+        if len(res.inconclusive) < 3:
+            res.inconclusive.append('child interpreter timed out on %s' % data.hex()[:80])
+        return
+    if p.returncode < 0 or 'Fatal Python error' in p.stderr:
+        res.witness('child:interpreter-aborted', feats, case, p.stderr[:400])
+        return
+    if p.returncode != 0:
+        res.see('child:harness-error')
+        if len(res.inconclusive) < 3:
+            res.inconclusive.append('child interpreter failed: ' + p.stderr[-300:])
+        return
+    for word in p.stdout.split():
+        res.see('child:' + word.split(':')[0])
+        if word.startswith('leak:'):
+            res.witness('child:' + word, feats, case, p.stdout)
+
+
 class CountingBytesIO(io.BytesIO):
     reads = 0
 
@@ -623,6 +694,12 @@ def run_shard(shard, tier, seed):
                 continue
             run_input(res, sc, data, token, (sch, {'decodeOpenTypes': True}), 'open-type-blob')
             res.see('open-type-blob-inputs')
+        # (xii) deep nests with an error at the bottom, in a child interpreter (an abort is not an exception)
+        for j, data in enumerate(abort_prone_inputs()):
+            if j % shard['nshards'] != shard['shard'] or (tier == 'quick' and (j // shard['nshards']) % 3):
+                continue
+            check_in_child(res, data)
+            res.see('abort-prone-inputs')
         # (x) growth of the step count: the same shape of input at N and 2N members must not cost much more than
         # twice the steps (a bound "proportional to the input size" is a statement about growth; the fixed budget
         # A + B*|input| has a generous B and would let quadratic work through at these sizes)
@@ -743,6 +820,9 @@ def run_shard(shard, tier, seed):
 
 def replay(case):
     res = H.Result(ID)
+    if case[0] == 'c08-child':
+        check_in_child(res, bytes.fromhex(case[1]))
+        return res
     if case[0] == 'c08-scaling':
         sc = M.StepCounter()
         sc.start()
